@@ -19,9 +19,9 @@ struct St
   int limit;           // what the bound is checked against during a loop
   int nloops;
 } st;
-enum { P_BOUND_ATTAINED = 0, P_REINIT, P_NONPOSITIVE_FIRST, P_QUERY_BEFORE_INIT, P_N_ABOVE_CORES, P_PARALLEL_GE2, P_NESTED };
+enum { P_BOUND_ATTAINED = 0, P_REINIT, P_NONPOSITIVE_FIRST, P_QUERY_BEFORE_INIT, P_N_ABOVE_CORES, P_PARALLEL_GE2, P_NESTED, P_LARGE_N };
 const char *probe_names[] = {"thread_bound_attained", "reinitialised_with_other_n", "first_init_nonpositive", "queried_before_init",
-                             "n_above_core_count", "two_or_more_bodies_simultaneously", "nested_loop_planned", nullptr};
+                             "n_above_core_count", "two_or_more_bodies_simultaneously", "nested_loop_planned", "init_with_16_to_129_threads", nullptr};
 const char *no_faults[] = {nullptr};
 
 void reset()
@@ -32,8 +32,14 @@ void reset()
 }
 void do_plan(int tier)
 {
-  (void)tier;
+  bool large = false;
   plan.cores = 2 + (int)sim_plan(5);
+  if (sim_plan(40) == 0) {
+    large = true;
+    // a large machine: the hardware-derived default is large too
+    static const int many[] = {16, 32, 64, 128};
+    plan.cores = many[sim_plan(tier ? 4 : 3)];
+  }
   sim_set_cores(plan.cores);
   sim_set_tso(sim_plan(4) == 0);
   plan.nops = 2 + (int)sim_plan(8);
@@ -44,8 +50,15 @@ void do_plan(int tier)
       k = 2;  // query before initialisation
     if (k < 2) {
       op.kind = C13_INIT;
-      unsigned v = sim_plan((uint32_t)(2 * plan.cores + 3));
+      unsigned v = sim_plan((uint32_t)(2 * (plan.cores > 8 ? 8 : plan.cores) + 3));
       op.n = v == 0 ? -1 : (v == 1 ? 0 : (int)v - 1);  // -1, 0, 1..2H
+      if (sim_plan(24) == 0) {
+        // thread counts around the powers of two where a narrow field, a fixed table or a cap would show
+        static const int big[] = {16, 17, 31, 32, 33, 63, 64, 65, 100, 127, 128, 129};
+        op.n = big[sim_plan(tier ? 12 : 9)];
+        sim_probe(P_LARGE_N);
+        large = true;
+      }
     } else if (k < 4) {
       op.kind = C13_QUERY;
     } else {
@@ -57,7 +70,7 @@ void do_plan(int tier)
         sim_probe(P_NESTED);
     }
   }
-  sim_set_step_cap(1500000);
+  sim_set_step_cap(large ? 8000000 : 1500000);
 }
 void check() {}
 int stuck(int deadlock, char *cls, size_t n)
